@@ -408,3 +408,33 @@ def vocabulary(ctx, repo):
 
 
 ALL = [relay_wiring, recorder_wiring, qcurve_none, vocabulary]
+
+
+# ---------------------------------------------------------------------------
+# PEN-state: a filter pen that relies on the tracked current point emits through the tracking methods
+# ---------------------------------------------------------------------------
+SEGMENT_METHODS = ("moveTo", "lineTo", "curveTo", "qCurveTo", "closePath", "endPath")
+
+
+def filter_state(ctx, repo):
+    ctx.rule("PEN-state", "a FilterPen subclass that reads the current point FilterPen tracks (self.current_pt) draws on the wrapped pen only through FilterPen's own segment methods (super().lineTo / curveTo / ...), which update it; a segment sent straight to self._outPen leaves current_pt at the previous segment's end, and the next curve is measured from a stale start point", floor=1)
+    n = 0
+    for rel in sorted(repo.rels()):
+        if not rel.startswith("pens/"):
+            continue
+        m = repo.mod(rel)
+        for q, c in sorted(m.classes.items()):
+            if c.name == "FilterPen" or not repo.is_subclass(c, "FilterPen"):
+                continue
+            reads = [x for f in c.methods.values() for x in ast.walk(f.node) if isinstance(x, ast.Attribute) and x.attr == "current_pt" and isinstance(x.ctx, ast.Load) and norm(x.value) == "self"]
+            if not reads:
+                continue
+            n += 1
+            ctx.consult(rel)
+            direct = [norm(x)[:50] for f in c.methods.values() for x in ast.walk(f.node) if isinstance(x, ast.Call) and isinstance(x.func, ast.Attribute) and x.func.attr in SEGMENT_METHODS and norm(x.func.value) == "self._outPen"]
+            ctx.ob("PEN-state", c.where, f"{c.name} reads self.current_pt in {len(reads)} place(s) and emits no segment directly on self._outPen", not direct, "" if not direct else f"{direct[0]} bypasses the method that advances current_pt")
+    if n < 1:
+        raise AnalysisError("PEN-state: no FilterPen subclass reads self.current_pt (Cu2QuPen confirmed by hand)")
+
+
+ALL.append(filter_state)
